@@ -95,6 +95,14 @@ claim("C16", "other",
       "symbolic execution with exact algebraic square-root atoms + z3 (QF_NRA)",
       "DESIGN.md section 1, C16")
 
+claim("C15", "other",
+      "Every public arithmetic operator of Op/OpSum, squeeze_identity, simplify(atol) with symbolic atol and __eq__/__hash__ on leaves with symbolic real/complex factors "
+      "(pool of 8 operators: multi-site, repeated DoF, identities inside, 1- and 2-component quantum numbers), against an independent dense denotation over three spin DoFs; "
+      "expression shapes enumerated to depth 2.",
+      "Real arithmetic for scalars (1/s exact); shapes and leaf pool enumerated.",
+      "symbolic execution of the real Op/OpSum code on z3-valued factors + z3",
+      "DESIGN.md section 1, C15")
+
 for pid in ["C%02d" % i for i in range(1, 21)]:
     if pid not in CHECKS:
         NA[pid] = "check not built yet (build in progress; see DESIGN.md)"
